@@ -96,11 +96,15 @@ def execute(p, ch):
         if p.get("backlog"):
             # a deep backlog instead of a short burst: the victim is stalled from the start and never drains while
             # thousands of messages are routed (in batches of p["batch"] per loop run); no choice points
-            paused[p["victim"]] = True
-            eps[p["victim"]].pause()
+            stall = p.get("stall", p["victim"])  # victim=None: the stalled connection resumes at the end and must then
+            paused[stall] = True  # hold the complete backlog, in order
+            eps[stall].pause()
             while remaining:
                 for m in remaining[: p["batch"]]:
-                    router.process_message(m, sender=None)
+                    if tr == "tcp-client":
+                        handlers[0].send_message(m)
+                    else:
+                        router.process_message(m, sender=None)
                 del remaining[: p["batch"]]
                 loop.quiesce()
                 while ctl is not None and len(ctl):
@@ -229,7 +233,14 @@ def configs(tier):
         for victim in (0, 1, 2):
             for batch in (1, 64, 2500):
                 out.append(dict(transport="tcp-server", nconn=3, burst=2500, toggles=0, victim=victim, backlog=True, batch=batch))
+        for stall in (0, 2):
+            out.append(dict(transport="tcp-server", nconn=3, burst=2500, toggles=0, victim=None, stall=stall, backlog=True, batch=64))
+        out.append(dict(transport="tcp-client", nconn=1, burst=2500, toggles=0, victim=None, stall=0, backlog=True, batch=64))
     else:
+        for stall in (0, 1, 2):
+            for batch in (1, 64, 9000):
+                out.append(dict(transport="tcp-server", nconn=3, burst=9000, toggles=0, victim=None, stall=stall, backlog=True, batch=batch))
+        out.append(dict(transport="tcp-client", nconn=1, burst=9000, toggles=0, victim=None, stall=0, backlog=True, batch=64))
         for victim in (0, 1, 2):
             for batch in (1, 7, 64, 1000, 9000):
                 out.append(dict(transport="tcp-server", nconn=3, burst=9000, toggles=0, victim=victim, backlog=True, batch=batch))
